@@ -10,21 +10,18 @@ INFO = {
         'are first asked on the lemma abstraction (every product, quotient and primitive result is represented by its proved range lemma, '
         'DESIGN 2.1) and on the full term only if that is sat. gamma: default and an uninterpreted callback with gamma >= 0. Thurstone-Mosteller: '
         'delta >= 0 needs W >= 0 and W~ >= 0; these are proved as function-level lemmas on the real w/wt in the same run (all paths, |x| <= 600, '
-        '0 < t <= 1e-2, analytic facts M1, M2, M5, M6) and used at each call site after its preconditions (t = kappa/c_iq <= 1e-2, |x| <= 600) are '
-        'discharged for that call.'),
+        'EVERY draw margin t > 0, analytic facts M1, M2, M5\' (the variance of a truncated standard normal is at most 1), M6) and used at each call '
+        'site after its preconditions (t = kappa/c_iq > 0, |x| <= 600) are discharged for that call; kappa ranges over all of (0, 1e-2] at every beta.'),
     'bounds': {
         'quick': 'PL/BT: shapes (1,1),(2,1) x 3 orders, (1,1,1) x 13 orders, (2,2) x 2; TM: (1,1) x 3 orders, (2,1) x 3; limit_sigma on/off; default and uninterpreted gamma >= 0; PL/BT also with a symbolic per-call tau (0 included) on a model with its own tau, limit_sigma on/off',
         'thorough': '+ (1,1,1,1) x 75 orders, (1,2,1), (2,1,2) for PL/BT; TM (1,1,1) (partial: all 13; full: strict)',
     },
-    'outside': ['IEEE rounding (the bound is decided over the reals)', 'Thurstone-Mosteller with a draw margin t = kappa/c_iq above 1e-2 (i.e. kappa > 0.014*beta): '
-                'there the library\'s switch of V~ to its asymptotic form at b < 1e-5 while W~ stays on the exact form makes W~ negative and the bound fails '
-                'in exact arithmetic - reported as an observation in DESIGN.md 7, outside "the range the models use" (C17)', '5-8 teams, 3+ players'],
+    'outside': ['IEEE rounding (the bound is decided over the reals)', '5-8 teams, 3+ players'],
     'stubs': None,
-    'axioms': ['T0/T1', 'M1, M2, M5, M6 in the function-level lemmas for w and wt'],
+    'axioms': ['T0/T1', 'M1, M2, M5 (Var <= half-width^2), M5\' (Var <= 1), M6 (Var >= 0) in the function-level lemmas for w and wt'],
     'assumptions': ['real-number semantics (mode R)', 'arithmetic guards assumed (C08)'],
 }
 
-TM_KAPPA = 'kappa*100 <= 1.4142*beta (so that t = kappa/c_iq <= 1e-2)'
 
 
 def jobs(tier):
@@ -71,7 +68,7 @@ def jobs(tier):
 
 
 def run_lemma(spec, ctx):
-    """function-level lemma: w(x,t) >= 0 / wt(x,t) >= 0 on every path, |x| <= 600, 0 < t <= 1e-2"""
+    """function-level lemma: w(x,t) >= 0 / wt(x,t) >= 0 on every path, |x| <= 600, every t > 0"""
     import z3
     from sx import core
     from harness import c17
@@ -79,12 +76,12 @@ def run_lemma(spec, ctx):
     import openskill.models.weng_lin.common as C
     fn = spec['fn']
     x, t = z3.Real('x'), z3.Real('t')
-    base = [t > 0, t * 100 <= 1, x >= -600, x <= 600]
+    base = [t > 0, x >= -600, x <= 600]
     core.INPUT_FACTS.clear()
-    core.INPUT_FACTS['t'] = core.F(0.0, True, 0.01, False)
+    core.INPUT_FACTS['t'] = core.F(0.0, True)
 
     def draw(rng):
-        return {'x': rng.choice([-9.0, -6.5, -3.0, -0.5, 0.0, 0.4, 2.5, 6.8, 8.5, 300.0]), 't': rng.choice([1e-9, 1e-5, 1.7e-5, 1e-3, 1e-2])}
+        return {'x': rng.choice([-9.0, -6.5, -3.0, -0.5, 0.0, 0.4, 2.5, 6.8, 8.5, 300.0]), 't': rng.choice([1e-9, 1e-5, 1.7e-5, 1e-3, 1e-2, 0.3, 1.2, 4.0])}
     for (kind, out), eng in core.iter_paths(lambda: getattr(C, fn)(core.Sym(x), core.Sym(t)), base, draw,
                                             opts={'deadline': ctx.deadline, 'branch_timeout': 10000}):
         ctx.paths += 1
@@ -107,7 +104,7 @@ def run_lemma(spec, ctx):
         r, m = eng.check(o < 0, *extra, timeout=120000)
         if r == 'sat':
             inp = core.model_inputs(m, ['x', 't'])
-            inp['__alt__'] = [{'x': a, 't': b} for a in (-8.5, -8.2, -7.0, -5.0, -1.0, 0.0, 0.3, 5.0, 6.9, 7.0, 8.3, 20.0) for b in (1e-8, 1e-5, 1e-3, 1e-2)]
+            inp['__alt__'] = [{'x': a, 't': b} for a in (-8.5, -8.2, -7.0, -5.0, -1.0, 0.0, 0.3, 5.0, 6.9, 7.0, 8.3, 20.0) for b in (1e-8, 1e-5, 1e-3, 1e-2, 0.1, 0.6, 1.0, 1.5, 3.0)]
             ctx.ob(f'lemma: {fn}(x,t) >= 0', 'sat', {'mode': 'lemma', 'fn': fn, 'inputs': inp})
         else:
             ctx.ob(f'lemma: {fn}(x,t) >= 0 on path {[str(c)[:60] for c in eng.pc]}', r,
@@ -134,7 +131,8 @@ def wt_axioms(eng, x, t):
         (a_, P_, p_), (b_, Q_, q_) = sel['l'], sel['u']
         m_ = Q_ - P_
         s_ = (b_ * q_ - a_ * p_) * m_ + (p_ - q_) * (p_ - q_)
-        axm = [p_ > 0, q_ > 0, m_ > 0, s_ <= m_ * m_, s_ >= m_ * m_ * (1 - t * t), a_ * m_ < p_ - q_, p_ - q_ < b_ * m_]
+        # s_ = (1 - Var) * m^2 for the standard normal truncated to (l, u): M6 Var >= 0, M5 Var <= t^2, M5' Var <= 1
+        axm = [p_ > 0, q_ > 0, m_ > 0, s_ <= m_ * m_, s_ >= m_ * m_ * (1 - t * t), s_ >= 0, a_ * m_ < p_ - q_, p_ - q_ < b_ * m_]
     return axm + c17.phi_anchor_axioms(eng, [-8.9])
 
 
@@ -163,7 +161,7 @@ def _install_tm_lemmas(key, ctx, log):
             if not hasattr(eng, 'notes_dict'):
                 eng.notes_dict = {}
             if ok is None:
-                pre = z3.Or(tt_ * 100 > 1, tt_ <= 0, xt_ > 600, xt_ < -600)
+                pre = z3.Or(tt_ <= 0, xt_ > 600, xt_ < -600)
                 # light cone-of-influence slice first (kappa bound, c_iq >= sqrt(2) beta, |mu| <= 20 beta), full path as fall-back
                 ok = eng.check_slice(pre, timeout=5000, depth=1) == 'unsat'
                 if not ok:
@@ -199,7 +197,6 @@ def run_job(spec, ctx):
     extra = []
     pre_log = []
     if tm:
-        extra.append(z3.Real('kappa') * 100 <= core.rv(1.4142) * z3.Real('beta'))
         _install_tm_lemmas(key, ctx, pre_log)
     tau = z3.Real('tau')
     names = H.sym_names(shape)
@@ -211,8 +208,6 @@ def run_job(spec, ctx):
 
     def draw(rng):
         e = H.draw_fn(shape)(rng)
-        if tm:
-            e['kappa'] = min(e['kappa'], 0.0141 * e['beta'])
         e['tc'] = rng.choice([0.0, 0.0, e['beta'] / 40, e['beta']])
         return e
     first = True
@@ -229,7 +224,7 @@ def run_job(spec, ctx):
             H.vacuity_check(ctx, eng, core.lift(out[0][0][1]) == 12345)
             first = False
         for (nm, ok) in pre_log:
-            ctx.ob(f'call-site precondition of lemma {nm} >= 0 (0 < t <= 1e-2, |x| <= 600)', 'unsat' if ok else 'unknown')
+            ctx.ob(f'call-site precondition of lemma {nm} >= 0 (t > 0, |x| <= 600)', 'unsat' if ok else 'unknown')
         del pre_log[:]
         for i, n in enumerate(shape):
             for j in range(n):
@@ -261,11 +256,24 @@ def replay(cand):
         import openskill.models.weng_lin.common as C
         inp = cand['inputs']
         got = getattr(C, cand['fn'])(inp['x'], inp['t'])
-        return {'violated': bool(got < -1e-12), 'key': f'lemma:{cand["fn"]}', 'detail': f'C06 lemma: {cand["fn"]}({inp["x"]!r}, {inp["t"]!r}) = {got!r} < 0'}
+        api = ''
+        if got < -1e-12 and cand['fn'] == 'wt' and inp['t'] > 0 and abs(inp['x']) <= 20:
+            # the same point through the public API: a Thurstone-Mosteller tie of two single players with sigma = beta, so that
+            # c_iq = 2 beta, t = kappa / c_iq and x = (mu_1 - mu_2) / c_iq (all inside the property's domain for kappa = 1e-2)
+            try:
+                from openskill.models import ThurstoneMostellerFull
+                b = 0.01 / (2 * inp['t'])
+                m = ThurstoneMostellerFull(beta=b, kappa=0.01, tau=0.0, sigma=b)
+                p, q = m.rating(mu=0.0, sigma=b), m.rating(mu=abs(inp['x']) * 2 * b, sigma=b)
+                (p2,), (q2,) = m.rate([[p], [q]], ranks=[1, 1])
+                api = (f'; through rate(): ThurstoneMostellerFull(beta={b!r}, kappa=0.01, tau=0) tie of (0, {b!r}) vs ({abs(inp["x"]) * 2 * b!r}, {b!r}): '
+                       f'sigma {b!r} -> {p2.sigma!r}, {q2.sigma!r}')
+            except Exception as e:  # noqa: BLE001
+                api = f'; through rate(): {e!r}'
+        return {'violated': bool(got < -1e-12), 'key': f'lemma:{cand["fn"]}',
+                'detail': f'C06 lemma: {cand["fn"]}({inp["x"]!r}, {inp["t"]!r}) = {got!r} < 0' + api}
     key, shape, ranks, variant = cand['model'], tuple(cand['shape']), tuple(cand['ranks']), cand['variant']
     inp = dict(cand['inputs'])
-    if key in H.TM:
-        inp['kappa'] = min(inp['kappa'], 0.014142 * inp['beta'])
     cfg = {}
     call = {}
     if variant in ('ls', 'pcls'):
